@@ -205,6 +205,13 @@ func cleanupConformance(c *Ctx, cleanLen string) (*TLCStats, error) {
 				}
 				rep, err := wk.runMode(croot, cc.T, "cleanup")
 				if err == nil && rep.Hung {
+					// a busy machine must not become a verdict: once more, alone, with four times the period
+					w2 := &inprocWorker{bin: wk.bin, env: wk.env, watchdog: 4 * inprocWatchdog}
+					time.Sleep(2 * time.Second)
+					rep, err = w2.runMode(croot, cc.T, "cleanup")
+					w2.stop()
+				}
+				if err == nil && rep.Hung {
 					if atomic.AddInt64(&cleanBad, 1) <= 10 {
 						c.violation("cleanup", map[string]any{"why": fmt.Sprintf("the clean-up passes did not return within %v on this text (Cleanup!Terminates: at most Len + 1 rounds)", inprocWatchdog), "text": cc.T, "spec": cc.Out})
 					}
